@@ -89,6 +89,9 @@ func DecodeSubsSR(hdr BoxHeader, startPos uint64, sr bits.SliceReader) (Box, err
 			ss.SubsamplePriority = sr.ReadUint8()
 			ss.Discardable = sr.ReadUint8()
 			ss.CodecSpecificParameters = sr.ReadUint32()
+			if sr.AccError() != nil {
+				return nil, sr.AccError()
+			}
 			e.SubSamples = append(e.SubSamples, ss)
 		}
 		if sr.AccError() != nil {
